@@ -283,7 +283,21 @@ impl DebrayAllocator {
         vr: &Cell<VarReg>,
         code: &mut CodeDeque,
     ) -> RegType {
+        let len = code.len();
+
         self.mark_var::<QueryInstruction>(var_num, Level::Shallow, vr, term_loc, code);
+
+        // An inlined builtin reads its operand from the variable's own register, never from
+        // the argument register A_k. A fresh temporary is initialised with
+        // `put_variable X_n, A_k`, which also overwrites A_k; in the first chunk A_k can
+        // still hold a head argument that is needed later in the chunk, e.g. R in
+        // `q(R) :- var(V), R = w(V, V).` Initialise X_n only.
+        if code.len() == len + 1 {
+            if let Some(Instruction::PutVariable(RegType::Temp(n), k)) = code.back_mut() {
+                *k = *n;
+            }
+        }
+
         vr.get().norm()
     }
 
